@@ -124,6 +124,19 @@ def run(ctx, rep):
             rep.ok("C08.3", cons, "process_trace(); self.index += 1 on every path", vb.loc())
         else:
             rep.violation("C08.3", cons, "there is a path from a process_trace() call to the next use of self.index (or to the exit) that does not advance self.index by one: readouts are attributed to the wrong subcircuit", vb.loc())
+    # completion: after the last trace the objective is cleared (the comparison is an equality with the number of traces)
+    cons = construct_of(vb, "completion-test")
+    comp = [st for st in iter_stmts(vb.body) if isinstance(st, ast.If) and any(isinstance(m, ast.Call) and isinstance(m.func, ast.Name) and m.func.id == "len" and m.args and isinstance(m.args[0], ast.Attribute) and m.args[0].attr == "traces" for m in ast.walk(st.test))
+            and any(isinstance(m, ast.Attribute) and m.attr == "index" for m in ast.walk(st.test))]
+    if not comp:
+        rep.undecided("C08.3", cons, "no test of the trace index against the number of traces", vb.loc())
+    else:
+        t = comp[0].test
+        clears = any(isinstance(a, ast.Assign) and any(isinstance(tg, ast.Attribute) and tg.attr == "objective" for tg in a.targets) and isinstance(a.value, ast.Constant) and a.value.value is None for a in ast.walk(ast.Module(body=comp[0].body, type_ignores=[])))
+        if isinstance(t, ast.Compare) and len(t.ops) == 1 and isinstance(t.ops[0], ast.Eq) and clears:
+            rep.ok("C08.3", cons, "`index == len(traces)` clears the objective and stops the walk", f"{vb.path}:{comp[0].lineno}")
+        else:
+            rep.violation("C08.3", cons, f"`{ast.unparse(t)}`: the walk is stopped while traces remain (or continues past the last one and indexes beyond the trace list)", f"{vb.path}:{comp[0].lineno}")
     # loop handler restores the walk state for each iteration
     vl = tv.methods.get("visit_LoopStatement")
     cons = construct_of(vl, "loop-repeats") if vl else cls_construct(ix, TRACE_VISITOR, "loop-repeats")
